@@ -26,7 +26,7 @@ RULE = ('inputs: corpus and Annex A derivations biased towards nesting (blocks, 
 ASSUMPTIONS = ['structural depth of the output is computed from the refjs tree of the output itself; continuation lines '
                'of multi-line string / comment tokens and lines that start with a comment are exempt']
 BUDGET_S = {'quick': 60, 'thorough': 700}
-REQUIRED_HITS = ['pretty_print', 'used_printer', 'shape', 'deep_shape', 'lines_checked', 'Indentator.indent', 'Indentator.dedent', 'level_zero_at_end', 'indent_from_dispatcher', 'indent_to_shortcut', 'closing_run']
+REQUIRED_HITS = ['pretty_print', 'used_printer', 'shape', 'deep_shape', 'lines_checked', 'Indentator.indent', 'Indentator.dedent', 'level_zero_at_end', 'indent_from_dispatcher', 'indent_to_shortcut', 'closing_run', 'tolerant_dispatcher']
 FLOOR = {'quick': 1500, 'thorough': 20000}
 
 INDENTS = ['  ', '\t', '', ' ', '   ', '    ', ' \t']
@@ -278,6 +278,64 @@ SHAPES = ['{{}}', ';{{}}', '{{};}', '{{}a;}', '{{{}}{}}', '{;{;}}', '{{}{}}', '{
           '{{//c\n}}', '/*c*/{{}}', '{{}}//c', '{{}}\n{{}}', 'while(a){}', 'while(a){{}}', 'if(a){}', 'if(a){{}}', '']
 
 
+GRAFT_TEXTS = ['function f(a) { switch (a) { case 1: x(); break; case 2: y(); default: z(); } return a; } f(1);',
+               'function g() { var o = {a: 1, b: {c: 2, d: 3}, e: 4}; return o; } g();',
+               '{ a; { b; c; } d; } e;', 'if (a) { b; } else { c; d; } try { e; f; } catch (x) { g; } finally { h; } i;',
+               'x = function () { return [ { k: 1 }, 2 ]; }; while (a) { b; c; } y;']
+
+
+def grafted(ctx, levels, text, indent, which=None):
+    """pretty printing through the documented extension point: a Dispatcher whose error_handler reports and carries on
+    (here: renders a comment), applied to a tree in which one member of a statement / property / item list has been replaced
+    by a node of a kind the definitions do not know.  Yields (graft index, problems)."""
+    from calmjs.parse import rules
+    from calmjs.parse.asttypes import Node
+    from calmjs.parse.parsers.es5 import parse
+    from calmjs.parse.ruletypes import StreamFragment
+    from calmjs.parse.unparsers.base import BaseUnparser
+    from calmjs.parse.unparsers.es5 import definitions
+    from calmjs.parse.unparsers.walker import Dispatcher
+    from vk import tree as vtree
+
+    class Extension(Node):
+        pass
+
+    class Tolerant(Dispatcher):
+        @staticmethod
+        def error_handler(exception, rule=None, node=None):
+            return StreamFragment('/* unsupported */', None, None, None, None)
+
+    n = 0
+    while True:
+        tree = parse(text)
+        slots = [(node, k, i) for _, node in vtree.reflect_walk(tree) for k, v in sorted(vars(node).items())
+                 if isinstance(v, list) and not k.startswith('_') for i, x in enumerate(v) if isinstance(x, Node)]
+        if n >= len(slots):
+            return
+        if which is None or which == n:
+            node, k, i = slots[n]
+            getattr(node, k)[i] = Extension()
+            levels.begin()
+            try:
+                out = ''.join(c.text for c in BaseUnparser(definitions, rules=(rules.indent(indent_str=indent),),
+                                                          dispatcher_cls=Tolerant)(tree))
+            except RecursionError:
+                n += 1
+                continue
+            problems = [('C20:indentator_level', hp) for hp in levels.end()]
+            try:
+                res = refjs.parse(out)
+            except (refjs.RefSyntaxError, RecursionError):
+                res = None
+                ctx.count('grafted_output_not_readable_by_reference')
+            viol, stats = audit(out, indent, res)
+            if out.rstrip('\n') != out.rstrip():
+                viol.append(('C20:trailing_white_space_at_end', 'the text ends with %r' % out[-12:]))
+            ctx.hit('tolerant_dispatcher')
+            yield n, out, problems + viol
+        n += 1
+
+
 def deep_shapes():
     """nesting well beyond what programs written by hand reach (the printers recurse: depth 150 is far
     from the interpreter's limit, see DESIGN 2.7)"""
@@ -311,6 +369,16 @@ def run(ctx):
                 check(ctx, levels, text, INDENTS, wc, 'shape', history=False)
                 check(ctx, levels, text, INDENTS[:2], wc, 'shape', history=True)
             ctx.hit('shape')
+        for k, text in enumerate(GRAFT_TEXTS):
+            for j, indent in enumerate(INDENTS[:3]):
+                if (k * 3 + j) % ctx.nshards != ctx.shard:
+                    continue
+                for n, out, viol in grafted(ctx, levels, text, indent):
+                    ctx.case(('graft', text, indent, n), True)
+                    for mech, detail in viol[:1]:
+                        ctx.violation(mech + ':tolerant_dispatcher', {'graft_text': text, 'indent': indent, 'graft': n},
+                                      '%s\nBaseUnparser with a Dispatcher whose error_handler carries on; member %d of the lists of the '
+                                      'tree replaced by a node without definition\ninput: %r\noutput: %r' % (detail, n, text, out[:400]))
         # several constructs closing at once, then more layout (the printer sees one long run of layout rules)
         from vk.gen import products
         for k, (key, text) in enumerate(products.closing_runs()):
@@ -341,6 +409,11 @@ def run(ctx):
 def replay(ctx, witness):
     levels = Levels(ctx).install()
     try:
+        if witness.get('graft_text') is not None:
+            for n, out, viol in grafted(ctx, levels, witness['graft_text'], witness.get('indent', '  '), which=witness.get('graft')):
+                for mech, detail in viol[:1]:
+                    ctx.violation(mech + ':tolerant_dispatcher', witness, '%s\noutput: %r' % (detail, out[:400]))
+            return
         check(ctx, levels, witness['text'], [witness.get('indent', '  ')], bool(witness.get('with_comments')), 'replay',
               history=bool(witness.get('history')), force_dispatcher=witness.get('via_dispatcher') or False)
     finally:
